@@ -29,14 +29,14 @@ import (
 )
 
 var st = stat.New("C15",
-	"Case = 2..4 scripted servers (unweighted or all statically weighted) behind a registry-backed proxy, 4..40 steps from {call x1..8, advance clock by 1|2|3|6|8|25|31|40|61|90 s, status check, flip a server between ok and failing}. Model per endpoint: failures/successes since (re)instatement, consecutive failures, model time since last success / since the failure streak began / since the last probe, observed rotation membership. Assertions (threshold assertions only when the model time is >= 2 s away from the threshold): an endpoint leaves rotation only with >= 2 failures since it was (re)instated (never with 0); >= 5 consecutive failures over >= 5 s with another endpoint active => out of rotation after the next status check; an endpoint that is out of rotation receives calls only as probes: never without a status check since it left rotation / since the previous probe, and two probes only if >= 30 s can lie between the status checks that scheduled them; a successful probe puts it back (it is listed again, and an in-rotation endpoint whose server answers receives ordinary traffic within two full cycles, also with static weights), a failed probe leaves it out; with every endpoint out of rotation calls are still attempted on some endpoint. Non-trivial = history with block -> >= 30 s -> probe -> reinstatement, or all endpoints blocked. Distinct = distinct case JSON.",
+	"Case = 2..4 scripted servers (unweighted or all statically weighted) behind a registry-backed proxy, 4..40 steps from {call x1..8, advance clock by 1|2|3|6|8|25|31|40|61|90 s, status check, flip a server between ok and failing, registry refresh after the registry's answer changed in an attribute that is not part of an endpoint's identity (QoS)}. Model per endpoint: failures/successes since (re)instatement, consecutive failures, model time since last success / since the failure streak began / since the last probe, observed rotation membership. Assertions (threshold assertions only when the model time is >= 2 s away from the threshold): an endpoint leaves rotation only with >= 2 failures since it was (re)instated (never with 0); >= 5 consecutive failures over >= 5 s with another endpoint active => out of rotation after the next status check; an endpoint that is out of rotation receives calls only as probes: never without a status check since it left rotation / since the previous probe, and two probes only if >= 30 s can lie between the status checks that scheduled them; a successful probe puts it back (it is listed again, and an in-rotation endpoint whose server answers receives ordinary traffic within two full cycles, also with static weights), a failed probe leaves it out; with every endpoint out of rotation calls are still attempted on some endpoint. Non-trivial = history with block -> >= 30 s -> probe -> reinstatement, or all endpoints blocked. Distinct = distinct case JSON.",
 	"clock advances shift the adapters' timestamps through an overlay accessor; real elapsed time (< 3 s per case) is added to the model with second granularity margins",
 	"the process-wide background status and refresh tickers are disabled (intervals of ~11 days set before the first proxy is created) so that status checks happen only where the history says")
 
 func init() { rogger.SetLevel(rogger.OFF) }
 
 type Step struct {
-	Op     string `json:"op"` // call | advance | check | flip
+	Op     string `json:"op"` // call | advance | check | flip | traffic | refresh
 	N      int    `json:"n,omitempty"`
 	Secs   int    `json:"secs,omitempty"`
 	Target int    `json:"target,omitempty"`
@@ -69,6 +69,13 @@ func draw(rt *rapid.T) Case {
 				add(Step{Op: rapid.SampledFrom([]string{"check", "call", "advance"}).Draw(rt, "noiseOp"), N: 1, Secs: rapid.SampledFrom([]int{1, 2, 3}).Draw(rt, "noiseSecs")})
 			}
 		}
+		// the registry's answer changes (an attribute that is not part of an endpoint's
+		// identity) and the periodic refresh runs
+		refresh := func() {
+			if rapid.IntRange(0, 2).Draw(rt, "refresh") == 0 {
+				add(Step{Op: "refresh", Target: rapid.IntRange(0, c.NServers-1).Draw(rt, "refreshTarget")})
+			}
+		}
 		// warm-up: sometimes long enough that the later failures stay below half of all
 		// calls, so that only the consecutive-failure rule can take the endpoint out
 		for w := rapid.SampledFrom([]int{0, 1, 2, 8, 12}).Draw(rt, "warmRounds"); w > 0; w-- {
@@ -89,11 +96,13 @@ func draw(rt *rapid.T) Case {
 			add(Step{Op: "check"})
 			add(Step{Op: "call", N: c.NServers})
 		}
+		refresh()
 		recovers := rapid.IntRange(0, 3).Draw(rt, "recovers") > 0
 		if recovers {
 			add(Step{Op: "flip", Target: tgt})
 		}
 		add(Step{Op: "call", N: rapid.IntRange(0, 8).Draw(rt, "mid")})
+		refresh()
 		noise()
 		add(Step{Op: "advance", Secs: rapid.SampledFrom([]int{25, 31, 40, 61}).Draw(rt, "a2")})
 		add(Step{Op: "check"})
@@ -115,14 +124,14 @@ func draw(rt *rapid.T) Case {
 	}
 	n := rapid.IntRange(4, 40).Draw(rt, "nsteps")
 	for i := 0; i < n; i++ {
-		op := rapid.SampledFrom([]string{"call", "call", "call", "advance", "advance", "check", "check", "flip"}).Draw(rt, "op")
+		op := rapid.SampledFrom([]string{"call", "call", "call", "call", "advance", "advance", "advance", "check", "check", "check", "flip", "refresh"}).Draw(rt, "op")
 		s := Step{Op: op}
 		switch op {
 		case "call":
 			s.N = rapid.IntRange(1, 8).Draw(rt, "n")
 		case "advance":
 			s.Secs = rapid.SampledFrom([]int{1, 2, 3, 6, 8, 25, 31, 40, 61, 90}).Draw(rt, "secs")
-		case "flip":
+		case "flip", "refresh":
 			s.Target = rapid.IntRange(0, c.NServers-1).Draw(rt, "target")
 		}
 		c.Steps = append(c.Steps, s)
@@ -274,6 +283,31 @@ func run(c Case) *stat.Failure {
 		switch stp.Op {
 		case "flip":
 			atomic.StoreInt32(&modes[stp.Target], 1-atomic.LoadInt32(&modes[stp.Target]))
+		case "refresh":
+			// the registry now publishes a different QoS value for one endpoint (same hosts,
+			// ports, timeouts: every endpoint keeps its identity); the refresh must leave
+			// the health state of every endpoint as it was
+			reg.mu.Lock()
+			reg.eps[stp.Target%len(reg.eps)].Qos++
+			reg.mu.Unlock()
+			if err := sp.VerifRefresh(); err != nil {
+				return stat.Failf("harness-failure", "refresh: %v", err)
+			}
+			st.Class("refresh-with-changed-registry-answer", 1)
+			active := map[int]bool{}
+			for _, h := range sp.VerifActiveHosts() {
+				if i, ok := hostIdx[h]; ok {
+					active[i] = true
+				}
+			}
+			for i, e := range m {
+				if e.out && active[i] {
+					return stat.Failf("blocked-endpoint-reinstated-by-refresh", "%s: endpoint %d was out of rotation (%d failures since it was reinstated, last success %.0f s ago, no successful probe since) and is listed in rotation again after a registry refresh that only changed the QoS value of endpoint %d", where, i, e.f, e.sinceSucc, stp.Target)
+				}
+				if !e.out && !active[i] {
+					return stat.Failf("endpoint-dropped-by-refresh", "%s: endpoint %d was in rotation and is not listed after a registry refresh that still publishes it", where, i)
+				}
+			}
 		case "advance":
 			for _, a := range sp.VerifAdapters() {
 				a.VerifShiftClock(int64(stp.Secs))
